@@ -78,9 +78,13 @@ def rule_det3(ctx):
     b = fx.fn("Files::sort")
     site = ctx.site(b)
     loops = hq.for_loops(b["body"])
-    if len(loops) != 1:
-        raise AnalysisGap("Files::sort: expected one for loop, found %d" % len(loops))
-    _, iterable, pat, loop_body = loops[0]
+    bucket = [l for l in loops if any(c.get("k") == "MethodCall" and c.get("method") == "push" and any(
+        x.get("k") == "Field" and x.get("name") in ("programs", "specifications", "user_guides", "proof_outlines", "other") for x in walk(l[3])) for c in walk(l[3]))]
+    if len(bucket) != 1:
+        raise AnalysisGap("Files::sort: expected one loop that files paths into the buckets, found %d" % len(bucket))
+    ctx.add("DET-3", "single-pass", len(loops) == 1, site,
+            "the paths are bucketed in one pass over the argument list (loops in Files::sort: %d); a second pass lets one kind of argument overtake another" % len(loops))
+    _, iterable, pat, loop_body = bucket[0]
     root, chain = hq.method_chain(iterable)
     n_new = len(hq.fn_refs(iterable, "WalkDir::new"))
     n_sort = len(hq.fn_refs(iterable, "WalkDir::sort_by_file_name"))
